@@ -31,6 +31,8 @@ def main():
             results[sid] = {"property": meta["property"], "applied": False, "note": ap.stdout[-300:]}
             if use_wt:
                 sh("git -C %s worktree remove --force %s" % (REPO, repo))
+            json.dump(results, open(resp, "w"), indent=1)
+            print(sid, "PATCH DOES NOT APPLY", flush=True)
             continue
         try:
             out = {}
